@@ -63,3 +63,10 @@ package reader
 //@   count closed: Close() when true
 //@   ensures handle_released: !isnil(r.file) ==> closed == 1
 //@   ensures nothing_to_close: isnil(r.file) ==> closed == 0 && !err
+
+// ---- C04: a file with incremental updates is read through the merge of ALL its cross-reference sections, in the order
+// ParseAllXRefs returns them (oldest first: MergeXRefTables lets the last one win) ----
+//@ func (*Reader) loadXRef results (res, err)
+//@   property C04
+//@   flags nosafety
+//@   callsite MergeXRefTables(ts) requires all_sections_in_parse_order: sameseq(ts, tables)
